@@ -199,6 +199,60 @@ def run_g1_g2_capped(ctx):
     return r
 
 
+def make_groups_run(topo):
+    """Real Mesh.__init__ + Mesh.makeRegions (MeshRegion replaced by a recorder, the region's
+    getRegridded by the identity): one MeshRegion per (region, segment) with its id, connections
+    and radial index; the y-groups (the chains zShift / poloidal_distance are integrated along)
+    partition the regions, follow the `upper` connections, start at a target whenever the chain
+    has one, and number their members in order; x-groups likewise from the innermost region."""
+
+    def run(ctx):
+        from hypnotoad.core import mesh as M
+        from . import topokit as tk
+
+        eq, info = tk.build_equilibrium(ctx, topo)
+        made = []
+
+        class Rec:
+            def __init__(self, mesh, rid, eqreg, connections, i, options, pm):
+                self.meshParent, self.myID, self.equilibriumRegion, self.connections, self.radialIndex = mesh, rid, eqreg, connections, i
+                self.name = "%s(%d)" % (eqreg.name, i)
+                self.yGroupIndex = None
+                made.append(self)
+
+            def getNeighbour(self, d):
+                k = self.connections[d]
+                return None if k is None else self.meshParent.regions[k]
+
+        class PM:
+            def __init__(self, *a, **k):
+                pass
+
+        for r_ in eq.regions.values():
+            r_.getRegridded = lambda radialIndex=None, psi=None, width=None, _r=r_: _r
+        eq.psi = None
+        m = object.__new__(M.Mesh)
+        with patched((M, "MeshRegion", Rec), (M, "ParallelMap", PM), (M, "print", lambda *a, **k: None)):
+            M.Mesh.__init__(m, eq, {})
+        with spec_mode():
+            pairs = [(nm, k) for nm, r_ in eq.regions.items() for k in range(r_.nSegments)]
+            ctx.oblige(TRUE([(x.equilibriumRegion.name, x.radialIndex) for x in made] == pairs and [x.myID for x in made] == list(range(len(pairs)))), "one MeshRegion per (region, segment), numbered in order")
+            ctx.oblige(TRUE(all(x.connections is m.connections[x.myID] for x in made)), "each MeshRegion gets the connections of its own id")
+            flat = [x for g in m.y_groups for x in g]
+            ctx.oblige(TRUE(len(flat) == len(made) and {id(x) for x in flat} == {id(x) for x in made}), "y-groups partition the regions")
+            for g in m.y_groups:
+                ctx.oblige(TRUE(all(g[k + 1] is g[k].getNeighbour("upper") for k in range(len(g) - 1))), "a y-group follows the upper connections")
+                ctx.oblige(TRUE([x.yGroupIndex for x in g] == list(range(len(g)))), "yGroupIndex = position in the chain")
+                last_up = g[-1].getNeighbour("upper")
+                has_target = any(x.connections["lower"] is None for x in g)
+                ctx.oblige(TRUE((g[0].connections["lower"] is None and last_up is None) if has_target else (last_up is g[0])), "an open chain runs from target to target; a closed one returns to its first region")
+            flatx = [x for g in m.x_groups for x in g]
+            ctx.oblige(TRUE(len(flatx) == len(made) and {id(x) for x in flatx} == {id(x) for x in made} and all(g[0].connections["inner"] is None and all(g[k + 1] is g[k].getNeighbour("outer") for k in range(len(g) - 1)) for g in m.x_groups)), "x-groups partition the regions, from the innermost region outwards")
+        return m
+
+    return run
+
+
 def run_dx_defined(ctx):
     """definedness: after the real geometry1 every dx entry DDX divides by has been assigned
     (non-zero for strictly monotone psi_vals)."""
@@ -234,6 +288,11 @@ def build(S):
                 S.contract("DDX[inner=%s,outer=%s]" % (i, o), FN_DDX, make_ddx_run(i, o), shape="nx=2, ny=1")
         add_ddy(S)
         S.contract("geometry1;geometry2[cap_Bp_ylow_xpoint]", "hypnotoad.core.mesh:MeshRegion.geometry2", run_g1_g2_capped, expected_exceptions=(ValueError,), raises_ok=g1_raises_ok, shape="nx=1, ny=3, X-point at the lower inner corner", max_paths=400)
+        from . import topokit as tk
+
+        S.under_contract("hypnotoad.core.mesh:Mesh.makeRegions", "hypnotoad.core.mesh:Mesh.__init__")
+        for topo in tk.TOPOLOGIES:
+            S.contract("makeRegions[y-groups,%s]" % topo, "hypnotoad.core.mesh:Mesh.makeRegions", make_groups_run(topo), expected_exceptions=(ValueError,), raises_ok=lambda p: True, shape="sizes symbolic; MeshRegion is a recorder")
         S.under_contract("hypnotoad.core.mesh:MeshRegion.calcMetric")
         S.contract("calcMetric[ShiftTorsion]", "hypnotoad.core.mesh:MeshRegion.calcMetric", run_shift_torsion, expected_exceptions=(ValueError,), shape="one point")
         from . import chainkit
